@@ -304,6 +304,17 @@ class StmtMixin:
             self.assign(target, elem, iter_node)
 
     def s_For(self, st):
+        # a loop over a short literal tuple / list (`for d in (self.a, self.b): reset(d, 0)`) is unrolled: every
+        # element is visited exactly once, in order, so each iteration is an ordinary (strong) update
+        if isinstance(st.iter, (ast.Tuple, ast.List)) and 0 < len(st.iter.elts) <= 8 and not st.orelse and \
+                not any(isinstance(e, ast.Starred) for e in st.iter.elts) and \
+                not any(isinstance(n, (ast.Break, ast.Continue)) for b in st.body for n in ast.walk(b)):
+            for e in st.iter.elts:
+                v = self.eval(e)
+                self.assign(st.target, v, st)
+                if not self.exec_block(st.body):
+                    return False
+            return True
         lid = self._new_loop_id()
         ev = self.emit("for", st, head=[], body=[], target=st.target, iter=None, iter_node=st.iter, loop_id=lid,
                        parallel=None, comp=False)
